@@ -75,6 +75,7 @@ OBS = {
     "row": (lambda x, a: x[a].tolist(), lambda r, a: list(r[a])),
     "elem": (lambda x, a: x[a[0], a[1]].item(), lambda r, a: r[a[0]][a[1]]),
     "rowscol": (lambda x, a: x[(a[0] if isinstance(a[0], np.ndarray) else list(a[0])), a[1]].tolist(), lambda r, a: [r[i][a[1]] for i in np.asarray(a[0]).tolist()]),
+    "pairs": (lambda x, a: x[a[0], a[1]].tolist(), lambda r, a: [r[i][j] for i, j in zip(np.asarray(a[0]).tolist(), np.asarray(a[1]).tolist())]),
     "ell": (lambda x, a: x[...].tolist(), lambda r, a: [list(q) for q in r]),
     "empty": (lambda x, a: x[()].tolist(), lambda r, a: [list(q) for q in r]),
     "maskidx": (lambda x, a: x[x > np.int64(a)].tolist(), lambda r, a: [v for q in r for v in q if v > a]),
@@ -99,7 +100,7 @@ OBS = {
 MATERIALISING = {"tolist", "iter", "ravel", "sum1", "npsum1", "sumall", "nonzero", "add1", "eqself", "cumsum", "sort", "diff", "zeros", "concatself", "astype", "save"}
 READ_OPS = [k for k in OBS]
 # observations whose result on float data (NaN, inf, -0.0, non-dyadic values) is defined element by element, hence exactly predictable
-FLOAT_OBS = ["tolist", "iter", "ravel", "meta", "repr", "str", "row", "elem", "rowscol", "ell", "empty", "maskidx", "subset", "padded", "nonzero", "add1", "sel", "rslice",
+FLOAT_OBS = ["tolist", "iter", "ravel", "meta", "repr", "str", "row", "elem", "rowscol", "pairs", "ell", "empty", "maskidx", "subset", "padded", "nonzero", "add1", "sel", "rslice",
              "getcol", "colcounts", "tonp", "astype", "concatself", "zeros", "diff", "save"]
 FLOAT_READS = FLOAT_OBS + ["sum1", "npsum1", "sumall", "any1", "eqself", "where", "max1", "sort", "unique"]     # fine as *inserted reads* (no model opinion needed)
 FLOAT_POOL = [0.1, 0.7, 1e17, 1.0, -2.5, 3.25, float("inf"), float("nan"), -0.0, 0.3, 123456.789, -1e-7, float("-inf"), 2.0]
@@ -115,7 +116,7 @@ def obs_applicable(name, rows):
         return tot > 0
     if name in ("row",):
         return n > 0
-    if name in ("elem", "rowscol"):
+    if name in ("elem", "rowscol", "pairs"):
         return tot > 0
     if name == "padded":
         return n > 0
@@ -143,6 +144,14 @@ def obs_arg(rng, name, rows):
         if rng.random() < 0.5:      # a signed index array with negative entries (the caller's array must come back unchanged)
             rs = np.array([k if rng.random() < 0.5 else k - n for k in rs], dtype=rng.choice([np.int64, np.int32]))
         return [rs, rng.randint(-ml, ml - 1)]
+    if name == "pairs":
+        # (row, column) pairs given as two index arrays, negative entries in both (the caller's arrays must come back unchanged)
+        cand = [k for k in range(n) if lens[k]]
+        rs = [rng.choice(cand) for _ in range(rng.randint(1, 4))]
+        cs = [rng.randint(-lens[k], lens[k] - 1) for k in rs]
+        rs = [k if rng.random() < 0.5 else k - n for k in rs]
+        dt = rng.choice([np.int64, np.int32, np.intp])
+        return [np.array(rs, dtype=dt), np.array(cs, dtype=dt)]
     if name == "getcol":
         return rng.randint(0, max(lens) - 1)
     if name in ("maskidx", "subset", "where"):
